@@ -144,7 +144,9 @@ func (s *scen) Enabled(i int) bool {
 		if o.res == "r3" && s.cfg.R3 == nil {
 			return false
 		}
-		if o.short && s.cfg.R1b == nil {
+		if o.short && (s.cfg.R1b == nil || (s.cfg.R1.ByKey && s.cfg.R1b.Index == 0)) {
+			// (with a key-selecting R1 and an R1b on argument 0 the one-argument request would put the value where
+			// R1b looks and, the key being absent, where R1 falls back to: not the shape this operation is about)
 			return false
 		}
 	}
@@ -525,6 +527,9 @@ func configs() []Config {
 		{R1: sp(1, nil, true, 0), ArgKind: "named"},
 		{R1: sp(2, map[string]int64{"A": 1}, true, 0), KeyOnly: true},
 		{R1: sp(2, map[string]int64{"A": 1}, false, 0), R3: &r3, ThrottlingBehaviour: true},
+		// two concurrency rules that share ParamIndex 0: one selects the attachment "k", the other argument 0 (the decoy)
+		{R1: sp(2, nil, true, 0), R1b: &RuleSpec{Threshold: 2, Index: 0}},
+		{R1: sp(1, map[string]int64{"B": 2}, true, 0), R1b: &RuleSpec{Threshold: 3, Index: 0}, R1bFirst: true},
 		{R1: sp(2, nil, false, -1), R3: &r3, ArgKind: "named"},
 	}
 }
